@@ -35,7 +35,7 @@ CfgAfter(h, k, cfg) ==
 
 JudgeA(r) ==
   LET fails == C05A_Failures(r)
-      P == [DefaultP(MToks(r.toks)) EXCEPT !.cprefix = {"DYN1"}, !.cinfix = r.cl, !.cpostfix = {"DYN2"}]
+      P == [DefaultP(MToks(r.toks)) EXCEPT !.cprefix = {"DYN1"}, !.cinfix = r.cl, !.cpostfix = {"DYN2", "DYN1"}]
       m == ParseProgram(P)
   IN /\ (fails = {} \/ PrintT(<<"FAIL", r.id, fails>>))
      /\ ((m.tree = r.res.tree /\ Len(m.errs) = r.res.nerr) \/ PrintT(<<"DRIFT", r.id>>))
